@@ -136,6 +136,16 @@ static void mode_c13(const Args &a) {
         else {
             GenOpts o; o.max_n = (int) r.range(4, max_n); o.tie_bias = 1.0;
             int pick = (int) r.below(6);
+            if (r.chance(0.03)) { // degree thresholds: a hub of degree 250..700 on a rim, with pendant leaves and a few separate cycles
+                Topo t; int rim = (int) r.range(100, 400); int leaves = (int) r.range(0, 320); int n = 1 + rim + leaves;
+                for (int v = 1; v <= rim; v++) { add_e(t, 0, v); if (r.chance(0.9)) add_e(t, v, v % rim + 1); }
+                for (int v = rim + 1; v < n; v++) add_e(t, 0, v);
+                int extra = (int) r.range(0, 3); for (int q = 0; q < extra; q++) { int len = (int) r.range(3, 6); int first = n; for (int z = 0; z < len; z++) { add_e(t, n, z + 1 < len ? n + 1 : first); n++; } }
+                dedup(t); s.n = n; for (auto &e : t) s.edges.push_back({e.first, e.second, 1}); r.shuffle(s.edges); s.family = "high_degree_hub";
+            } else if (r.chance(0.002)) { // size thresholds: ~70 000 vertices, a hub of degree > 65 536, many small cycles
+                Topo t; int n = (int) r.range(66000, 72000); for (int v = 1; v < n; v++) add_e(t, 0, v); for (int v = 1; v + 1 < n; v += (int) r.range(2, 40)) add_e(t, v, v + 1);
+                dedup(t); s.n = n; for (auto &e : t) s.edges.push_back({e.first, e.second, 1}); s.family = "huge_star_with_cycles";
+            } else
             if (pick == 0) { // hub whose removal drops many degrees at once, plus trees glued to cycles
                 Topo t; int n = (int) r.range(6, o.max_n); for (int v = 1; v < n; v++) add_e(t, 0, v); for (int v = 1; v + 1 < n; v += (int) r.range(1, 3)) add_e(t, v, v + 1);
                 int extra = (int) r.range(0, n / 3); for (int q = 0; q < extra; q++) { add_e(t, (int) r.below(n), n); n++; }
@@ -277,9 +287,11 @@ static void mode_c16(const Args &a) {
         Rng r(case_seed(a.seed, "C16", i));
         GraphSpec s;
         if (!a.replay.empty()) { std::ifstream in(a.replay); if (!parse_spec(in, s)) { emit_harness_failure("cannot parse replay spec"); exit(2); } }
+        else if (r.chance(0.002)) { // size thresholds (narrow counters): ~70 000 vertices in a few thousand components
+            int n = (int) r.range(66000, 72000); s.n = n; for (int v = 0; v + 1 < n; v++) if (!r.chance(0.05)) s.edges.push_back({v, v + 1, 1}); int extra = (int) r.range(1, 300); for (int q = 0; q < extra; q++) { int a_ = (int) r.below(n - 5); s.edges.push_back({a_, a_ + 3, 1}); } s.family = "huge_paths_with_chords"; }
         else { GenOpts o; o.max_n = (int) r.range(0, max_n); o.tie_bias = 1.0; s = gen_graph(r, o); }
         CaseOut co(i);
-        bool scramble = r.chance(0.5);
+        bool scramble = r.chance(0.5) && s.n < 5000;
         G g(s.n); auto w = boost::get(boost::edge_weight, g);
         vscr::begin(scramble, r.next(), 2 * s.edges.size() + 3 * (size_t) s.n + 64);
         for (auto &e : s.edges) { auto x = boost::add_edge(e.u, e.v, g).first; w[x] = 1.0; }
